@@ -278,3 +278,40 @@ func PBKDF2SHA512(password, salt []byte, iter, keyLen int) []byte {
 func Seed(mnemonicNFKD, passNFKD string) []byte {
 	return PBKDF2SHA512([]byte(mnemonicNFKD), []byte("mnemonic"+passNFKD), 2048, 64)
 }
+
+// published BIP39 test vectors (Trezor's vectors.json, passphrase "TREZOR"), written down from
+// memory and cross-checked against CPython's hashlib: entropy, English mnemonic, seed.
+var publishedVectors = [][3]string{
+	{"00000000000000000000000000000000", "abandon abandon abandon abandon abandon abandon abandon abandon abandon abandon abandon about", "c55257c360c07c72029aebc1b53c05ed0362ada38ead3e3e9efa3708e53495531f09a6987599d18264c1e1c92f2cf141630c7a3c4ab7c81b2f001698e7463b04"},
+	{"7f7f7f7f7f7f7f7f7f7f7f7f7f7f7f7f", "legal winner thank year wave sausage worth useful legal winner thank yellow", "2e8905819b8723fe2c1d161860e5ee1830318dbf49a83bd451cfb8440c28bd6fa457fe1296106559a3c80937a1c1069be3a3a5bd381ee6260e8d9739fce1f607"},
+	{"80808080808080808080808080808080", "letter advice cage absurd amount doctor acoustic avoid letter advice cage above", "d71de856f81a8acc65e6fc851a38d4d7ec216fd0796d0a6827a3ad6ed5511a30fa280f12eb2e47ed2ac03b5c462a0358d18d69fe4f985ec81778c1b370b652a8"},
+	{"ffffffffffffffffffffffffffffffff", "zoo zoo zoo zoo zoo zoo zoo zoo zoo zoo zoo wrong", "ac27495480225222079d7be181583751e86f571027b0497b5b5d11218e0a8a13332572917f0f8e5a589620c6f15b11c61dee327651a14c34e18231052e48c069"},
+	{"0000000000000000000000000000000000000000000000000000000000000000", "abandon abandon abandon abandon abandon abandon abandon abandon abandon abandon abandon abandon abandon abandon abandon abandon abandon abandon abandon abandon abandon abandon abandon art", "bda85446c68413707090a52022edd26a1c9462295029f2e60cd7c4f2bbd3097170af7a4d73245cafa9c3cca8d561a7c3de6f5d4a10be8ed2a5e608d68f92fcc8"},
+	{"ffffffffffffffffffffffffffffffffffffffffffffffffffffffffffffffff", "zoo zoo zoo zoo zoo zoo zoo zoo zoo zoo zoo zoo zoo zoo zoo zoo zoo zoo zoo zoo zoo zoo zoo vote", "dd48c104698c30cfe2b6142103248622fb7bb0ff692eebb00089b32d22484e1613912f0a5b694407be899ffd31ed3992c456cdf60f5d4564b8ba3f05a69890ad"},
+}
+
+// SelfTest checks the reference model (not the code under test) against the
+// published vectors: encoder, decoder, validator and PBKDF2.
+func (m *Model) SelfTest() error {
+	const english = 2
+	if m.List[english] == nil {
+		return nil
+	}
+	for _, v := range publishedVectors {
+		e, _ := hex.DecodeString(v[0])
+		if got := m.Encode(e, english); got != v[1] {
+			return fmt.Errorf("reference encoder: %s -> %q, published vector %q", v[0], got, v[1])
+		}
+		words := strings.Split(v[1], " ")
+		if verdict, _ := m.ValidateTokens(words, english); verdict != VValid {
+			return fmt.Errorf("reference validator rejects the published vector %q", v[1])
+		}
+		if dec, _, bad := m.Decode(words, english); bad >= 0 || hex.EncodeToString(dec) != v[0] {
+			return fmt.Errorf("reference decoder: %q -> %x", v[1], dec)
+		}
+		if got := hex.EncodeToString(Seed(v[1], "TREZOR")); got != v[2] {
+			return fmt.Errorf("reference PBKDF2: seed of %q = %s, published %s", v[1], got, v[2])
+		}
+	}
+	return nil
+}
